@@ -339,9 +339,195 @@ def helper_affine(program, name):
         return None, 'return value is not an affine function of the argument: ' + show(others[0][2])
     return {'a': a[0], 'b': a[1], 'digits': a[2], 'none_to_none': none_ok, 'line': fn.lineno, 'term': show(others[0][2])}, None
 
+def _unit_rows(chk, program, fn, rows, f):
+    exp = set(PHYS)
+    chk.check(set(rows) == exp, 'UNIT-TABLE', 'recognised-preferences', file=MSG, line=fn.lineno, func='apply_preferred_units',
+              expected=sorted(f"{a}/{b}" for a, b in exp), found=sorted(f"{a}/{b}" for a, b in rows))
+    for (q, lit), row in sorted(rows.items()):
+        inst = f"{q}/{lit}"
+        chk.check(lit == lit.lower(), 'UNIT-NORM', inst, file=MSG, line=row.get('line', fn.lineno), func='apply_preferred_units', expected='lower-case literal (preferences are lower-cased by the decoder)', found=lit)
+        chk.check('value' in row and 'label' in row and sym.is_const(row.get('label', NONE)) and isinstance(row['label'][1], str) and row['label'][1], 'UNIT-EFFECT', f"{inst}::both-rewritten",
+                  file=MSG, line=row.get('line', fn.lineno), func='apply_preferred_units', expected='value and unit label rewritten together', found=sorted(row))
+        v = row.get('value')
+        if v is None or (q, lit) not in PHYS:
+            continue
+        okcall = v[0] == 'call' and v[1][0] == 'name' and v[2] == (('attr', f, 'value'),)
+        chk.check(okcall, 'UNIT-TABLE', f"{inst}::converts-own-value", file=MSG, line=row['line'], func='apply_preferred_units', expected='f.value = helper(f.value)', found=show(v))
+        if not okcall:
+            continue
+        info, why = helper_affine(program, v[1][1])
+        if info is None:
+            chk.unknown('UNIT-AFFINE', inst, why, UT, 0)
+            continue
+        if 'nonaffine' in info:
+            chk.violation('UNIT-AFFINE', f"{inst}::{v[1][1]}", file=UT, line=info['line'], func=v[1][1], expected='an affine map of the input (optionally rounded)', found=info['term'],
+                          detail=info['nonaffine'] + ': a unit conversion is linear; e.g. a modulo wraps negative values instead of converting them')
+            continue
+        a, b, what = PHYS[(q, lit)]
+        a, b = float(a), float(b)
+        rel = lambda x, y: abs(x - y) <= 1e-3 * max(abs(y), 1e-12) if y != 0 else abs(x) < 1e-9
+        chk.check(rel(info['a'], a) and (abs(info['b'] - b) < 5e-3), 'UNIT-AFFINE', f"{inst}::{v[1][1]}", file=UT, line=info['line'], func=v[1][1],
+                  expected={'what': what, 'slope': a, 'intercept': b}, found={'slope': info['a'], 'intercept': info['b'], 'round_digits': info['digits'], 'term': info['term']})
+        chk.check(info['digits'] is None or isinstance(info['digits'], int), 'UNIT-AFFINE', f"{inst}::{v[1][1]}::rounding", file=UT, line=info['line'], func=v[1][1],
+                  expected='round(., k) (to nearest) or no rounding', found=info['digits'],
+                  detail='int()/floor truncation is not rounding: e.g. negative angles come out one unit off')
+        chk.check(info['none_to_none'], 'UNIT-AFFINE', f"{inst}::{v[1][1]}::absent-stays-absent", file=UT, line=info['line'], func=v[1][1], expected='None -> None first', found=info['none_to_none'])
+
+def _unit_rest(chk, program, rows, fn):
+    # decoder lower-cases preferences
+    init = program.fn('decoder', 'NMEA2000Decoder.__init__')
+    a = [n for n in ast.walk(init) if isinstance(n, ast.Assign) and any(isinstance(t, ast.Attribute) and t.attr == 'preferred_units' for t in n.targets)]
+    # decided on the interpreted constructor: the preferences come out with the same keys and lower-cased values
+    from . import rules_filter as F, absint as A
+    try:
+        got = F.interp_ctor(program, preferred={'QuantityA': 'KnOtS', 'QuantityB': 'c'}).get('preferred_units')
+        chk.check(got == {'QuantityA': 'knots', 'QuantityB': 'c'}, 'UNIT-NORM', 'decoder-lower-cases-preferences', file='nmea2000/decoder.py', line=init.lineno, func='__init__',
+                  expected="same quantities, unit names lower-cased ({'QuantityA': 'knots', 'QuantityB': 'c'})", found=got)
+    except (A.Unknown, A.RaiseSignal) as u:
+        ok = len(a) == 1 and isinstance(a[0].value, ast.DictComp) and isinstance(a[0].value.value, ast.Call) and isinstance(a[0].value.value.func, ast.Attribute) and a[0].value.value.func.attr == 'lower' \
+            and isinstance(a[0].value.key, ast.Name)
+        if ok:
+            chk.ok('UNIT-NORM', 'decoder-lower-cases-preferences', file='nmea2000/decoder.py', line=a[0].lineno, func='__init__')
+        else:
+            chk.unknown('UNIT-NORM', 'decoder-lower-cases-preferences', f"constructor neither interpretable ({u}) nor of the recognised shape", 'nmea2000/decoder.py', init.lineno)
+    dfn = program.fn('decoder', 'NMEA2000Decoder._call_decode_function')
+    calls = [n for n in ast.walk(dfn) if isinstance(n, ast.Call) and isinstance(n.func, ast.Attribute) and n.func.attr == 'apply_preferred_units']
+    chk.check(len(calls) == 1 and ast.unparse(calls[0].args[0]) == 'self.preferred_units', 'UNIT-NORM', 'decoder-passes-its-preferences', file='nmea2000/decoder.py',
+              line=calls[0].lineno if calls else dfn.lineno, func='_call_decode_function', expected='apply_preferred_units(self.preferred_units)', found=[ast.unparse(c) for c in calls])
+    # database: quantities with a conversion exist as enum members and fields carrying them use the SI unit the helper assumes
+    db = program.db
+    si = {'TEMPERATURE': 'K', 'PRESSURE': 'Pa', 'ANGLE': 'rad', 'SPEED': 'm/s'}
+    n = 0
+    for d in db.defs:
+        for fl in d.fields:
+            if fl.quantity in si:
+                n += 1
+                if fl.unit != si[fl.quantity]:
+                    # the database marks this field with the quantity but another unit: converting it as if it were SI is wrong,
+                    # so every row of that quantity must be guarded by the source unit
+                    guarded = all(all(ug == si[fl.quantity] for ug in row.get('unit_guards', [None])) for (q, lit), row in rows.items() if q == fl.quantity)
+                    chk.check(guarded, 'UNIT-TABLE', f"db::{d.key}::{fl.dbid}", file=MSG, line=fn.lineno, func='apply_preferred_units',
+                              expected=f"conversion of {fl.quantity} applied only to values in {si[fl.quantity]} (this database field is in {fl.unit!r})",
+                              found='converted regardless of the source unit',
+                              detail=f"with the preference set, a value already in {fl.unit} is pushed through the {si[fl.quantity]} conversion")
+    chk.ok('UNIT-TABLE', 'db::convertible-fields', file='canboat.json', line=0, found=f"{n} fields carry a convertible quantity")
+    chk.unit('convertible_fields', n)
+
+
+SI_UNIT = {'TEMPERATURE': 'K', 'PRESSURE': 'Pa', 'ANGLE': 'rad', 'SPEED': 'm/s'}
+
+def unit_semantic(chk, program):
+    """NMEA2000Message.apply_preferred_units interpreted (absint): one message with a field per quantity (SI unit, symbolic value and raw value), an
+    ANGLE field already in degrees and a field of a quantity without conversion; one preference at a time, for every literal the function knows
+    and a few it must not know.  -> rows {(quantity, literal): {'helper': name, 'label': text, 'line': n}} or None when not interpretable.
+    Obligations: a recognised preference rewrites value (through one converter applied to the field's own value) and unit label together; anything
+    else is untouched -- raw values, fields of other quantities, the ANGLE field that is not in rad, every field under an unrecognised preference."""
+    from . import absint as A
+    from .wire import is_logger
+    fn = program.fn('message', 'NMEA2000Message.apply_preferred_units')
+    mod = program.mod('message')
+    menv = A.ModuleEnv(mod.tree)
+    cls = program.cls('message', 'NMEA2000Message')
+    methods = {n.name: n for n in cls.body if isinstance(n, ast.FunctionDef)}
+    converters = {q for q in program.mod('utils').defs if '.' not in q}
+    lits = sorted({l for (_, l) in PHYS} | {'zz', 'k', 'pa', 'rad', 'm/s', 'knots', 'C', 'celsius'})
+    quantities = list(SI_UNIT) + ['LENGTH']
+    db_units = sorted({(fl.quantity, fl.unit) for d in program.db.defs for fl in d.fields if fl.quantity in SI_UNIT and fl.unit != SI_UNIT[fl.quantity] and fl.unit})
+    def build():
+        fs = []
+        for j, (q_, u_) in enumerate(db_units):
+            o = A.AObj(id=A.AStr([('lit', f"dbu{j}")]), physical_quantities=A.AOpaque(f"PhysicalQuantities.{q_}"), unit_of_measurement=A.AStr([('lit', u_)]),
+                       value=A.sym_int(f"valu{j}", 32), raw_value=A.sym_int(f"rawu{j}", 32), part_of_primary_key=False, name=None, description=None, type=A.AOpaque('FieldTypes.NUMBER'))
+            o.attrs['__q__'] = f"{q_}({u_})"
+            fs.append(o)
+        for i, q in enumerate(quantities):
+            o = A.AObj(id=A.AStr([('lit', f"f{i}")]), physical_quantities=A.AOpaque(f"PhysicalQuantities.{q}"), unit_of_measurement=A.AStr([('lit', SI_UNIT.get(q, 'm'))]),
+                       value=A.sym_int(f"val{i}", 32), raw_value=A.sym_int(f"raw{i}", 32), part_of_primary_key=False, name=None, description=None, type=A.AOpaque('FieldTypes.NUMBER'))
+            o.attrs['__q__'] = q
+            fs.append(o)
+        deg = A.AObj(id=A.AStr([('lit', 'already_deg')]), physical_quantities=A.AOpaque('PhysicalQuantities.ANGLE'), unit_of_measurement=A.AStr([('lit', 'deg')]),
+                     value=A.sym_int('valdeg', 32), raw_value=A.sym_int('rawdeg', 32), part_of_primary_key=False, name=None, description=None, type=A.AOpaque('FieldTypes.NUMBER'))
+        deg.attrs['__q__'] = 'ANGLE(deg)'
+        noq = A.AObj(id=A.AStr([('lit', 'noq')]), physical_quantities=None, unit_of_measurement=None, value=A.sym_int('valn', 32), raw_value=A.sym_int('rawn', 32),
+                     part_of_primary_key=False, name=None, description=None, type=A.AOpaque('FieldTypes.NUMBER'))
+        noq.attrs['__q__'] = 'none'
+        return fs + [deg, noq]
+    def snap(fs):
+        return [(f.attrs['value'], f.attrs['unit_of_measurement'], f.attrs['raw_value']) for f in fs]
+    def run(prefs):
+        def hook(it, call, env):
+            f = call.func
+            cv = None
+            if isinstance(f, ast.Name) and f.id not in env and f.id in converters and f.id not in menv.funcs:
+                cv = f.id
+            elif isinstance(f, (ast.Name, ast.Subscript, ast.Attribute)) and not (isinstance(f, ast.Attribute) and not isinstance(f.value, ast.Name)):
+                try:
+                    v = it.expr(f, env) if not isinstance(f, ast.Name) or f.id in env else None
+                except A.Unknown:
+                    v = None
+                if isinstance(v, A.AOpaque) and v.what in converters:
+                    cv = v.what
+            if cv is not None:
+                args = [it.expr(a, env) for a in call.args]
+                return A.AObj(converted_by=cv, of=args[0] if len(args) == 1 else None, line=call.lineno)
+            return NotImplemented
+        fs = build()
+        msg = A.AObj(fields=A.AList(fs), PGN=A.AInt(1), id=A.AStr([('lit', 'x')]))
+        before = snap(fs)
+        pd = A.ADict({f"PhysicalQuantities.{q}": A.AStr([('lit', l)]) for q, l in prefs.items()})
+        A.Interp(hook=hook, skip=is_logger, methods=methods, module=menv).call_function(fn, [msg, pd])
+        return fs, before, snap(fs)
+    rows = {}
+    problems = []
+    try:
+        fs, b, a = run({})
+        if a != b:
+            problems.append('an empty preference map changes fields')
+        for q in SI_UNIT:
+            for lit in lits:
+                fs, b, a = run({q: lit})
+                for f, (v0, u0, r0), (v1, u1, r1) in zip(fs, b, a):
+                    fq = f.attrs['__q__']
+                    if r1 is not r0:
+                        problems.append(f"preference {q}={lit}: raw value of the {fq} field rewritten")
+                    changed = (v1 is not v0) or (u1 is not u0 and (not isinstance(u1, A.AStr) or not isinstance(u0, A.AStr) or u1.literal() != u0.literal()))
+                    if fq != q:
+                        if changed:
+                            problems.append(f"preference {q}={lit} changes the {fq} field")
+                        continue
+                    if not changed:
+                        continue
+                    okv = isinstance(v1, A.AObj) and v1.attrs.get('of') is v0 and isinstance(v1.attrs.get('converted_by'), str)
+                    oku = isinstance(u1, A.AStr) and u1.literal() not in (None, '') and u1.literal() != u0.literal()
+                    if not (okv and oku):
+                        problems.append(f"preference {q}={lit}: value and unit label are not rewritten together (value {'converted' if okv else 'not converted / not by one converter of its own value'}, label {u1!r})")
+                        continue
+                    rows[(q, lit)] = {'helper': v1.attrs['converted_by'], 'label': u1.literal(), 'line': v1.attrs.get('line', fn.lineno)}
+        # two preferences at once: each quantity follows its own
+        fs, b, a = run({'TEMPERATURE': 'c', 'PRESSURE': 'bar'})
+        for f, (v0, u0, r0), (v1, u1, r1) in zip(fs, b, a):
+            if f.attrs['__q__'] in ('TEMPERATURE', 'PRESSURE') and (f.attrs['__q__'], {'TEMPERATURE': 'c', 'PRESSURE': 'bar'}[f.attrs['__q__']]) in rows and v1 is v0:
+                problems.append('with two preferences given, one of them is ignored')
+    except (A.Unknown, A.RaiseSignal) as u:
+        chk.unit('apply_preferred_units_not_interpretable', str(u))
+        return None
+    chk.check(not problems, 'UNIT-EFFECT', 'only-value-and-label-of-the-matching-quantity', file=MSG, line=fn.lineno, func='apply_preferred_units',
+              expected='a recognised preference rewrites value and unit label of the fields of that quantity (ANGLE only when in rad); raw values, other fields and unrecognised preferences: untouched',
+              found=problems[:4] or 'ok')
+    return rows
+
 def unit_rules(chk, program):
     fn = program.fn('message', 'NMEA2000Message.apply_preferred_units')
     params = [a.arg for a in fn.args.args]
+    sem_rows = unit_semantic(chk, program)
+    if sem_rows is not None:
+        f = ('param', '$field')
+        # a database field of that quantity in another unit stays untouched (checked by only-value-and-label-of-the-matching-quantity): the rows count as guarded by the SI unit
+        rows = {k: {'value': ('call', ('name', v['helper']), (('attr', f, 'value'),), ()), 'label': C(v['label']), 'line': v['line'], 'unit_guards': [SI_UNIT[k[0]]]} for k, v in sem_rows.items()}
+        _unit_rows(chk, program, fn, rows, f)
+        _unit_rest(chk, program, rows, fn)
+        return
+    loops = [s for s in fn.body if isinstance(s, ast.For)]
     loops = [s for s in fn.body if isinstance(s, ast.For)]
     if len(loops) != 1 or ast.unparse(loops[0].iter) != f"{params[0]}.fields":
         raise AnalysisError('apply_preferred_units: loop over self.fields not found')
@@ -392,64 +578,5 @@ def unit_rules(chk, program):
             row['value'] = val; row['line'] = e[-1]
         else:
             row['label'] = val
-    exp = set(PHYS)
-    chk.check(set(rows) == exp, 'UNIT-TABLE', 'recognised-preferences', file=MSG, line=fn.lineno, func='apply_preferred_units',
-              expected=sorted(f"{a}/{b}" for a, b in exp), found=sorted(f"{a}/{b}" for a, b in rows))
-    for (q, lit), row in sorted(rows.items()):
-        inst = f"{q}/{lit}"
-        chk.check(lit == lit.lower(), 'UNIT-NORM', inst, file=MSG, line=row.get('line', fn.lineno), func='apply_preferred_units', expected='lower-case literal (preferences are lower-cased by the decoder)', found=lit)
-        chk.check('value' in row and 'label' in row and sym.is_const(row.get('label', NONE)) and isinstance(row['label'][1], str) and row['label'][1], 'UNIT-EFFECT', f"{inst}::both-rewritten",
-                  file=MSG, line=row.get('line', fn.lineno), func='apply_preferred_units', expected='value and unit label rewritten together', found=sorted(row))
-        v = row.get('value')
-        if v is None or (q, lit) not in PHYS:
-            continue
-        okcall = v[0] == 'call' and v[1][0] == 'name' and v[2] == (('attr', f, 'value'),)
-        chk.check(okcall, 'UNIT-TABLE', f"{inst}::converts-own-value", file=MSG, line=row['line'], func='apply_preferred_units', expected='f.value = helper(f.value)', found=show(v))
-        if not okcall:
-            continue
-        info, why = helper_affine(program, v[1][1])
-        if info is None:
-            chk.unknown('UNIT-AFFINE', inst, why, UT, 0)
-            continue
-        if 'nonaffine' in info:
-            chk.violation('UNIT-AFFINE', f"{inst}::{v[1][1]}", file=UT, line=info['line'], func=v[1][1], expected='an affine map of the input (optionally rounded)', found=info['term'],
-                          detail=info['nonaffine'] + ': a unit conversion is linear; e.g. a modulo wraps negative values instead of converting them')
-            continue
-        a, b, what = PHYS[(q, lit)]
-        a, b = float(a), float(b)
-        rel = lambda x, y: abs(x - y) <= 1e-3 * max(abs(y), 1e-12) if y != 0 else abs(x) < 1e-9
-        chk.check(rel(info['a'], a) and (abs(info['b'] - b) < 5e-3), 'UNIT-AFFINE', f"{inst}::{v[1][1]}", file=UT, line=info['line'], func=v[1][1],
-                  expected={'what': what, 'slope': a, 'intercept': b}, found={'slope': info['a'], 'intercept': info['b'], 'round_digits': info['digits'], 'term': info['term']})
-        chk.check(info['digits'] is None or isinstance(info['digits'], int), 'UNIT-AFFINE', f"{inst}::{v[1][1]}::rounding", file=UT, line=info['line'], func=v[1][1],
-                  expected='round(., k) (to nearest) or no rounding', found=info['digits'],
-                  detail='int()/floor truncation is not rounding: e.g. negative angles come out one unit off')
-        chk.check(info['none_to_none'], 'UNIT-AFFINE', f"{inst}::{v[1][1]}::absent-stays-absent", file=UT, line=info['line'], func=v[1][1], expected='None -> None first', found=info['none_to_none'])
-    # decoder lower-cases preferences
-    init = program.fn('decoder', 'NMEA2000Decoder.__init__')
-    a = [n for n in ast.walk(init) if isinstance(n, ast.Assign) and any(isinstance(t, ast.Attribute) and t.attr == 'preferred_units' for t in n.targets)]
-    ok = len(a) == 1 and isinstance(a[0].value, ast.DictComp) and isinstance(a[0].value.value, ast.Call) and isinstance(a[0].value.value.func, ast.Attribute) and a[0].value.value.func.attr == 'lower' \
-        and isinstance(a[0].value.key, ast.Name)
-    chk.check(ok, 'UNIT-NORM', 'decoder-lower-cases-preferences', file='nmea2000/decoder.py', line=a[0].lineno if a else init.lineno, func='__init__',
-              expected='{k: v.lower() for k, v in preferred_units.items()}', found=ast.unparse(a[0].value) if a else None)
-    dfn = program.fn('decoder', 'NMEA2000Decoder._call_decode_function')
-    calls = [n for n in ast.walk(dfn) if isinstance(n, ast.Call) and isinstance(n.func, ast.Attribute) and n.func.attr == 'apply_preferred_units']
-    chk.check(len(calls) == 1 and ast.unparse(calls[0].args[0]) == 'self.preferred_units', 'UNIT-NORM', 'decoder-passes-its-preferences', file='nmea2000/decoder.py',
-              line=calls[0].lineno if calls else dfn.lineno, func='_call_decode_function', expected='apply_preferred_units(self.preferred_units)', found=[ast.unparse(c) for c in calls])
-    # database: quantities with a conversion exist as enum members and fields carrying them use the SI unit the helper assumes
-    db = program.db
-    si = {'TEMPERATURE': 'K', 'PRESSURE': 'Pa', 'ANGLE': 'rad', 'SPEED': 'm/s'}
-    n = 0
-    for d in db.defs:
-        for fl in d.fields:
-            if fl.quantity in si:
-                n += 1
-                if fl.unit != si[fl.quantity]:
-                    # the database marks this field with the quantity but another unit: converting it as if it were SI is wrong,
-                    # so every row of that quantity must be guarded by the source unit
-                    guarded = all(all(ug == si[fl.quantity] for ug in row.get('unit_guards', [None])) for (q, lit), row in rows.items() if q == fl.quantity)
-                    chk.check(guarded, 'UNIT-TABLE', f"db::{d.key}::{fl.dbid}", file=MSG, line=fn.lineno, func='apply_preferred_units',
-                              expected=f"conversion of {fl.quantity} applied only to values in {si[fl.quantity]} (this database field is in {fl.unit!r})",
-                              found='converted regardless of the source unit',
-                              detail=f"with the preference set, a value already in {fl.unit} is pushed through the {si[fl.quantity]} conversion")
-    chk.ok('UNIT-TABLE', 'db::convertible-fields', file='canboat.json', line=0, found=f"{n} fields carry a convertible quantity")
-    chk.unit('convertible_fields', n)
+    _unit_rows(chk, program, fn, rows, f)
+    _unit_rest(chk, program, rows, fn)
